@@ -240,9 +240,9 @@ type Frame struct {
 	Link    bool // had an Ethernet header (false in raw-IP mode)
 	Eth     Eth
 	ARP     *ARP
-	IPs     []IPv4   // outermost first (IP-in-IP nesting)
-	IPOff   []int    // byte offset of each IPv4 header in the frame
-	IPEnd   []int    // end offset (header offset + min(total length, available))
+	IPs     []IPv4 // outermost first (IP-in-IP nesting)
+	IPOff   []int  // byte offset of each IPv4 header in the frame
+	IPEnd   []int  // end offset (header offset + min(total length, available))
 	TCP     *TCP
 	UDP     *UDP
 	ICMP    *ICMP
